@@ -136,7 +136,11 @@ Definition init (start size : N) (static : bool) : cwksp :=
 Definition cwksp_sizeof (w : cwksp) : N := ws_end w - ws_start w.
 Definition cwksp_used (w : cwksp) : N := (tableEnd w - ws_start w) + (ws_end w - allocStart w).
 Definition available_space (w : cwksp) : N := allocStart w - tableEnd w.
-Definition check_available (w : cwksp) (n : N) : bool := n <=? available_space w.
+(* ZSTD_cwksp_available_space computes (size_t)(allocStart - tableEnd): when objects were reserved past the
+   rounded-down allocStart (workspace smaller than the objects + 64) the unsigned difference wraps *)
+Definition available_space_c (w : cwksp) : N :=
+  if tableEnd w <=? allocStart w then allocStart w - tableEnd w else 2 ^ 64 - (tableEnd w - allocStart w).
+Definition check_available (w : cwksp) (n : N) : bool := n <=? available_space_c w.
 
 (* ------------------------------------------------------------------ *)
 (* operation lists *)
